@@ -699,10 +699,7 @@ func refLeaf(res string, n *fltNode, e fltEnt) int {
 				}
 			}
 			return -1
-		case "balance_any":
-			if len(e.Bals) == 0 {
-				return -1
-			}
+		case "balance_any": // EXISTS over the per-asset rows: false, not unknown, without volumes
 			for _, bl := range e.Bals {
 				if num(bl.Bal) == 1 {
 					return 1
@@ -1049,7 +1046,7 @@ func (g *fltGen) validLeaf() *fltNode {
 				return &e.Upd
 			})}
 		case k < 78:
-			return g.balLeaf(g.odd && r.Chance(35))
+			return g.balLeaf(r.Chance(35))
 		default:
 			return g.metaLeaf()
 		}
@@ -1367,9 +1364,8 @@ func fltCheck(out *Out, hr *HistRun, store *ledgerstore.Store, c fltCase, seen m
 	}
 	// ---- MONITOR C20 (independent of the Coq model)
 	wf := refWellFormed(c.Res, c.F)
-	var hasBareAccBalance, hasEmptyOr bool
+	var hasEmptyOr bool
 	c.F.walk(func(x *fltNode, _ int) {
-		hasBareAccBalance = hasBareAccBalance || (c.Res == "acc" && x.Key == "balance_any" && x.Op != "exists")
 		hasEmptyOr = hasEmptyOr || (x.Op == "or" && len(x.Kids) == 0)
 	}, 0)
 	short := func(xs []string) string {
@@ -1422,9 +1418,6 @@ func fltCheck(out *Out, hr *HistRun, store *ledgerstore.Store, c fltCase, seen m
 		}
 	case "cardinality":
 		tag := "[sql-error]"
-		if hasBareAccBalance {
-			tag = "[acc-bare-balance-cardinality]"
-		}
 		out.Violation("C20", cs, fmt.Sprintf("%s %s filter %s fails with SQLSTATE 21000 (more than one row returned by a subquery used as an expression); expected {%s}", tag, c.Res, c.F.json(), short(refKeys)))
 	case "panic":
 		tag := "[panic]"
